@@ -167,3 +167,21 @@ def shared_mutable_defaults(prog, ci):
                 (isinstance(d, _ast.Call) and (call_name(d) or "") in _MUTABLE_CTORS):
             out.append((f["name"], node, norm(d)))
     return out
+
+
+def strip_shape_wrappers(e):
+    """peel operations that only give an array its type / shape: np.array(X), np.asarray(X, dtype=...), np.reshape(X, shape), X.reshape(...)"""
+    import ast as _ast
+
+    from .core import call_name
+
+    while isinstance(e, _ast.Call):
+        cn = call_name(e) or ""
+        tail = cn.split(".")[-1]
+        if tail in ("array", "asarray", "ascontiguousarray", "reshape") and cn.split(".")[0] in ("np", "numpy") and e.args:
+            e = e.args[0]
+        elif tail == "reshape" and isinstance(e.func, _ast.Attribute):
+            e = e.func.value
+        else:
+            break
+    return e
